@@ -46,6 +46,7 @@ let rec resolve env n =
     (* near miss of the value of the base name: a different, never-issued value *)
     coq_of_string (string_of_coq (resolve env (Stdlib.String.sub n 0 (l - 1))) ^ Stdlib.String.make 1 n.[l - 1])
   else if n = "adm" then admin
+  else if n = "emp" || n = "non" then coq_of_string ""   (* the empty bearer value / no Authorization header *)
   else match Stdlib.List.assoc_opt n env.bind with Some v -> v | None -> coq_of_string ("?" ^ n)
 let next_value env n =
   let k = (match Stdlib.List.assoc_opt n env.cnt with Some k -> k | None -> 0) + 1 in
